@@ -244,21 +244,34 @@ func (c *Classifier) Normalize(in []byte) []byte {
 	case 0:
 		return nil
 	case 1:
+		for l := 1; l < doc.Tokens[0].Line; l++ {
+			buf.WriteString(eol)
+		}
 		buf.WriteString(c.dict.getWord(doc.Tokens[0].ID))
 		return buf.Bytes()
 	}
 
 	prevLine := 1
+	// A word joined across a hyphenated line break swallows that break without
+	// leaving an EOL token, so token line numbers can jump by more than one (and
+	// the first token need not be on line 1). Pad with empty lines to keep the
+	// output aligned with the reported positions.
+	for ; prevLine < doc.Tokens[0].Line; prevLine++ {
+		buf.WriteString(eol)
+	}
 	buf.WriteString(c.dict.getWord(doc.Tokens[0].ID))
 	if c.dict.getWord(doc.Tokens[0].ID) == eol {
 		// A first line without words is represented by its EOL token alone. The
 		// line break is written when the first token of the next line arrives, so
 		// the EOL text itself must not be emitted or every line shifts by one.
-		buf.Reset()
+		buf.Truncate(buf.Len() - len(eol))
 	}
 	for _, t := range doc.Tokens[1:] {
 		// Only write out an EOL token that incremented the line
 		if t.Line == prevLine+1 {
+			buf.WriteString(eol)
+		}
+		for l := prevLine; t.Line > prevLine+1 && l < t.Line; l++ {
 			buf.WriteString(eol)
 		}
 
